@@ -57,7 +57,26 @@ fn host_result(x: isize) -> Result<isize, String> {
     }
 }
 
+thread_local! {
+    /// values the host keeps alive through the collector's root table (`SteelVal::as_rooted`), by handle
+    static HOST_ROOTS: std::cell::RefCell<Vec<Option<steel::RootedSteelVal>>> = std::cell::RefCell::new(Vec::new());
+}
+
 pub fn setup(engine: &mut Engine) {
+    // host roots: (host-root! v) -> handle; (host-rooted-ref h) -> v; (host-unroot! h) releases the root
+    engine.register_fn("host-root!", |v: steel::SteelVal| -> usize {
+        HOST_ROOTS.with(|r| {
+            let mut r = r.borrow_mut();
+            r.push(Some(v.as_rooted()));
+            r.len() - 1
+        })
+    });
+    engine.register_fn("host-rooted-ref", |h: usize| -> steel::SteelVal {
+        HOST_ROOTS.with(|r| r.borrow().get(h).and_then(|x| x.as_ref().map(|x| x.value().clone())).unwrap_or(steel::SteelVal::Void))
+    });
+    engine.register_fn("host-unroot!", |h: usize| -> bool {
+        HOST_ROOTS.with(|r| r.borrow_mut().get_mut(h).map(|x| x.take().is_some()).unwrap_or(false))
+    });
     // identity functions at every supported parameter type: the script sees what the host received
     engine.register_fn("host-i16", |x: i16| -> isize { x as isize });
     engine.register_fn("host-i32", |x: i32| -> isize { x as isize });
